@@ -282,12 +282,20 @@ C01_QUICK = {"leaf_decode_id13", "leaf_mode_a_to_mode_c", "leaf_ac13_read", "lea
              "trk_other0_df17", "trk_pos_df17_trackf_inv"}
 
 
+# C02 quick keeps one harness per format / acceptance class; the per-field variants of the same
+# formats (C04 / C10) are left to those properties and to the thorough tier
+C02_QUICK_EXCLUDE = {"df17_ca1_me58", "df17_ca7_me58", "df18_cf6_me58", "df17_ca5_me20", "df17_ca5_mee1", "df21_mb20", "df17_ca5_me99",
+                     "df11_b0_59", "df11_b0_5f", "df24_b0_c2", "df27_b0_dd", "fc_df17_15", "fc_df11_08"}
+
+
 def select(prop, tier):
     out = []
     for o in OBL:
         if prop not in o["props"]:
             continue
         if prop == "C01" and tier == "quick" and o["name"] not in C01_QUICK:
+            continue
+        if prop == "C02" and tier == "quick" and o["name"] in C02_QUICK_EXCLUDE:
             continue
         if o["tier"] in ("native", "native-bounded"):
             continue
